@@ -2,7 +2,7 @@
   C18 lemmas, part 1: the heap primitives of `Model/TreeHeap.lean` seen through the *view*
   `St.cellAt : Nat → Option Cell` (the live cell at an address), and the ghost shape `BT`
   (first-child / next-sibling binary tree of addresses) with the local predicate `Loc` from which
-  the link invariant (`Match`) and the text-adjacency invariant (`NoAdj`) are built.
+  the link invariant (`Match`) is built.
 -/
 import Wbxml.Model.TreeHeap
 namespace Wbxml.Model.TreeHeap
@@ -232,14 +232,6 @@ def LinkOK (v : View) (par prv : Option Nat) (i : Nat) (f n : Option Nat) : Prop
 
 /-- The cells of the shape are live and linked exactly as the shape says. -/
 def Match (v : View) : Option Nat → Option Nat → BT → Prop := Loc (LinkOK v)
-
-def textAt (v : View) (i : Nat) : Prop := ∃ c, v i = some c ∧ c.pay.isText = true
-
-/-- No text node is directly followed by a text node. -/
-def AdjOK (v : View) (_par _prv : Option Nat) (i : Nat) (_f n : Option Nat) : Prop :=
-  ¬ (textAt v i ∧ ∃ j, n = some j ∧ textAt v j)
-
-def NoAdj (v : View) : BT → Prop := Loc (AdjOK v) none none
 
 theorem Match.frame {v v' : View} (t : BT) (par prv : Option Nat)
     (h : ∀ i, i ∈ t.ids → v' i = v i) (m : Match v par prv t) : Match v' par prv t :=
